@@ -89,6 +89,73 @@ def counting_loop(crate, e, r, cev, fs):
     return True, "n = #{v in corners : poly.contains(v)}"
 
 
+def lon_range_table(ctx, crate):
+    """N: the longitude-range test used to count edge crossings is the cyclic HALF-OPEN arc
+    [west, east) of the shorter way round between the two vertices — read at every triple of a grid
+    of dyadic longitudes, ties included.  Crossing parity (point in polygon) needs every meridian
+    through a vertex to be counted for exactly one of the two edges meeting there: a closed or
+    doubly open end makes `contains` wrong for every point on the meridian of a vertex, which is
+    where HEALPix cell corners sit."""
+    import math
+    from rules.common import feval
+    clause = "lon-range"
+    fn = find(crate, "sph_geom::is_in_lon_range")
+    b = ctx.anchor(crate, fn, clause) if fn else None
+    if b is None:
+        if not fn: ctx.undecided(clause, "is_in_lon_range", "function not found")
+        return
+    e = Engine(crate); r = e.run(fn); ctx.functions |= e.visited_fns
+    if not r.returns:
+        ctx.undecided(clause, fn + ":shape", "no value", at=b.span); return
+    names = b.param_names()
+    if len(names) != 3:
+        ctx.undecided(clause, fn + ":shape", "expected (point, vertex, vertex)", at=b.span); return
+    # the float leaves of the formula, one per parameter: the three longitudes
+    leaves = {}
+    seen = set()
+    def scan(t, depth=0):
+        if t in seen or depth > 30: return
+        seen.add(t)
+        if t[0] == 'phi':
+            g = e.phi_gate.get(t)
+            for o in (g if g else e.phi_ops.get(t, ())): scan(o, depth + 1)
+            return
+        if t[0] in ('fld', 'deref', 'call', 'p') and t[0] != 'p':
+            ps = [n for n in names if any(y == ('p', n) for y in walk(t))]
+            if len(ps) == 1 and not any(y[0] == 'op' for y in walk(t)):
+                leaves.setdefault(ps[0], set()).add(t); return
+        if t[0] in ('op', 'un', 'cast'):
+            for x in t[3:]:
+                if isinstance(x, tuple): scan(x, depth + 1)
+    scan(r.ret)
+    if set(leaves) != set(names) or any(len(v) != 1 for v in leaves.values()):
+        ctx.undecided(clause, fn + ":leaves", "cannot identify one longitude per argument: %s" % {k: [show(x) for x in v] for k, v in leaves.items()}, at=b.span); return
+    L, A, B = (next(iter(leaves[n])) for n in names)
+    grid = [0.0, 0.5, 1.0, 2.5, 3.0, 5.5, 6.0, 6.25]
+    bad = []; bad2 = []; n = 0; ties = 0
+    for a in grid:
+        for b_ in grid:
+            if a == b_ or abs(abs(b_ - a) - math.pi) < 1e-9: continue
+            lo, hi = min(a, b_), max(a, b_)
+            crossing = (hi - lo) > math.pi
+            for l in grid:
+                want = (l >= hi or l < lo) if crossing else (lo <= l < hi)
+                got = feval(r.ret, {L: l, A: a, B: b_}, e)
+                if got is None:
+                    ctx.undecided(clause, fn + ":eval", "cannot read the formula at (%s; %s, %s)" % (l, a, b_), at=b.span); return
+                n += 1
+                if l in (a, b_): ties += 1
+                if bool(got) != want: bad.append((l, a, b_, bool(got), want, l in (a, b_)))
+                # the mirrored convention (west, east] is as good, provided it is used for every edge
+                want2 = (l > hi or l <= lo) if crossing else (lo < l <= hi)
+                if bool(got) != want2: bad2.append((l, a, b_, bool(got), want2, l in (a, b_)))
+    if not bad2: bad = []
+    ctx.report(clause, fn + ":half-open-cyclic-arc", not bad and n >= 300,
+               "%d triples (point; vertex, vertex) of dyadic longitudes, %d of them ties: the test is `lon in [west, east)` of the shorter arc (or (west, east] throughout)" % (n, ties) if not bad else
+               "%d of %d triples wrong, e.g. lon = %s with vertices at %s and %s: code says %s, the half-open arc says %s%s" % (len(bad), n, bad[0][0], bad[0][1], bad[0][2], bad[0][3], bad[0][4], " (a tie: the meridian of a vertex)" if bad[0][5] else ""),
+               at=b.span, kind="N", sample={"triples": n, "ties": ties, "mismatches": [list(map(str, x)) for x in bad[:4]]})
+
+
 def count_rule(ctx, crate):
     clause = "vertex-count"
     b = ctx.anchor(crate, NVIP, clause)
@@ -263,6 +330,7 @@ def run(ctx):
     bounding_cone_coverage(ctx, crate)
     recur_rules(ctx, crate)
     count_rule(ctx, crate)
+    lon_range_table(ctx, crate)
     driver(ctx, crate)
     from rules.c09 import recursion_shape
     recursion_shape(ctx, crate, RECUR)
